@@ -29,11 +29,18 @@ static const char* const TEMPLATES[] = {"\xE2\x88\x80\xCE\xBE\xE2\x88\x88%a \xCE
   "\xE2\x88\x80" "a,b\xE2\x88\x88%a a=b", "D{\xCE\xBE\xE2\x88\x88%a | \xCE\xBE\xE2\x88\x88%a}", "{\xCE\xBE\xE2\x88\x88%a | \xCE\xBE=%a}", "D{(a,b)\xE2\x88\x88%a | a=b}",
   "R{\xCE\xBE:=%a | \xCE\xBE\xE2\x88\xAA%a}", "R{\xCE\xBE:=%a | \xCE\xBE=\xCE\xBE | \xCE\xBE\\%a}", "I{a | a:\xE2\x88\x88%a; a\xE2\x88\x88%a}", "I{(a,b) | a:\xE2\x88\x88%a; b:=%a}",
   "[\xCE\xB1\xE2\x88\x88%a] \xCE\xB1\xE2\x88\xAA%a", "[\xCE\xB1\xE2\x88\x88\xE2\x84\xAC(R1), \xCE\xB2\xE2\x88\x88%a] \xCE\xB1\\{\xCE\xB2}", "\xE2\x88\x80\xCE\xBE\xE2\x88\x88%a \xE2\x88\x80\xCE\xBE\xE2\x88\x88%a \xCE\xBE=\xCE\xBE", "\xE2\x88\x80\xCE\xBE\xE2\x88\x88%a \xCE\xB6=\xCE\xBE",
-  "(\xE2\x88\x80\xCE\xBE\xE2\x88\x88%a \xCE\xBE=\xCE\xBE) & \xCE\xBE=%a", "[a\xE2\x88\x88" "D{b\xE2\x88\x88%a | b=b}, b\xE2\x88\x88%a] b", "[a\xE2\x88\x88%a, b\xE2\x88\x88\xE2\x84\xAC(a)] b",
+  "\xE2\x88\x80\xCE\xBE\xE2\x88\x88%a \xCE\xBE=\xCE\xBE & \xCE\xBE=%a", "[a\xE2\x88\x88" "D{b\xE2\x88\x88%a | b=b}, b\xE2\x88\x88%a] b", "[a\xE2\x88\x88%a, b\xE2\x88\x88\xE2\x84\xAC(a)] b",
   "I{1 | a:\xE2\x88\x88%a}", "I{%a | a:\xE2\x88\x88%a; b:=a}", "R{\xCE\xBE:=%a | {\xCE\xBE}}", "R{\xCE\xBE:=%a | \xCE\xBE\xE2\x88\xAA{\xCE\xBE}}",
   // recursion whose condition must be typed with the STABLE type of the variable; a bound name re-declared in a sibling scope with another type
   "R{\xCE\xBE:=%a | \xCE\xBE=%a | \xCE\xBE\xE2\x88\xAA{%a}}", "R{\xCE\xBE:=%a | \xCE\xBE\xE2\x8A\x86%a | \xCE\xBE\xE2\x88\xAA%a}",
-  "\xE2\x88\x80" "a\xE2\x88\x88%a pr1(a)\xE2\x88\x88X1 & \xE2\x88\x80" "a\xE2\x88\x88%a pr1(a)\xE2\x88\x88X1", "\xE2\x88\x80" "a\xE2\x88\x88%a a\xE2\x88\x88X1 & \xE2\x88\x83" "a\xE2\x88\x88%a a\xE2\x8A\x86X1"};
+  "\xE2\x88\x80" "a\xE2\x88\x88%a pr1(a)\xE2\x88\x88X1 & \xE2\x88\x80" "a\xE2\x88\x88%a pr1(a)\xE2\x88\x88X1", "\xE2\x88\x80" "a\xE2\x88\x88%a a\xE2\x88\x88X1 & \xE2\x88\x83" "a\xE2\x88\x88%a a\xE2\x8A\x86X1",
+  // a bound name re-used at another nesting depth (deeper: the use after the inner binder is out of scope; shallower: the use after a nested binder is in scope)
+  "\xE2\x88\x80" "a\xE2\x88\x88%a a=a & \xE2\x88\x80" "c\xE2\x88\x88%a (\xE2\x88\x80" "a\xE2\x88\x88X1 a=c & a=c)",
+  "\xE2\x88\x80" "c\xE2\x88\x88%a \xE2\x88\x80" "a\xE2\x88\x88X1 a=c & \xE2\x88\x80" "a\xE2\x88\x88%a (\xE2\x88\x80" "b\xE2\x88\x88X1 b=a & a=a)",
+  "D{c\xE2\x88\x88%a | \xE2\x88\x83" "a\xE2\x88\x88X1 a=c} \xE2\x88\xAA D{a\xE2\x88\x88%a | \xE2\x88\x83" "b\xE2\x88\x88X1 b=a & a=a}",
+  // tuple patterns that re-use a name at another position / nesting in a sibling binder
+  "I{a | (a,b):\xE2\x88\x88%a}\xE2\x88\xAAI{a | (b,a):\xE2\x88\x88%a}", "\xE2\x88\x80(a,b)\xE2\x88\x88%a a=a & \xE2\x88\x83(b,a)\xE2\x88\x88%a a\xE2\x88\x88X2",
+  "D{(a,b)\xE2\x88\x88%a | b=b}\xE2\x88\xAA" "D{(c,a)\xE2\x88\x88%a | a\xE2\x88\x88X2}", "I{b | (a,(b,c)):\xE2\x88\x88%a}\xE2\x88\xAAI{b | ((b,c),a):\xE2\x88\x88%a}"};
 #else                // three atoms, two operators
 static const char* const TEMPLATES[] = {"%a%o%a%o%a"};
 #endif
